@@ -57,9 +57,31 @@ type pxBody struct {
 }
 
 type pxAdaptor struct {
-	Body       string `json:"body"`
-	Compress   bool   `json:"compress"`
-	Decompress bool   `json:"decompress"`
+	Body       string      `json:"body"`
+	Compress   bool        `json:"compress"`
+	Decompress bool        `json:"decompress"`
+	HDel       []string    `json:"hdel"` // header: del / set / add (distinct keys within set and within add)
+	HSet       [][2]string `json:"hset"`
+	HAdd       [][2]string `json:"hadd"`
+}
+
+// pxCache is the pool's memoryCache; the expiration is fixed at 10 minutes so that
+// expiry can never decide a case.
+type pxCache struct {
+	Codes         []int    `json:"codes"`
+	Methods       []string `json:"methods"`
+	MaxEntryBytes int      `json:"maxEntryBytes"`
+}
+
+// pxStep is one request of a history (and what the backend would answer to it).
+type pxStep struct {
+	Method  string      `json:"method"`
+	Path    string      `json:"path"`
+	Query   string      `json:"query"`
+	Host    string      `json:"host"`
+	Hdrs    [][2]string `json:"hdrs"`
+	Body    pxBody      `json:"body"`
+	Backend pxBackend   `json:"backend"`
 }
 
 type pxCfg struct {
@@ -72,6 +94,7 @@ type pxCfg struct {
 	ProxyMax    int64      `json:"proxyMax"`    // serverMaxBodySize at Proxy level
 	ReqAd       *pxAdaptor `json:"reqAd"`
 	RespAd      *pxAdaptor `json:"respAd"`
+	Cache       *pxCache   `json:"cache"`
 }
 
 type pxBackend struct {
@@ -89,6 +112,7 @@ type pxScenario struct {
 	Body    pxBody      `json:"body"`
 	Cfg     pxCfg       `json:"cfg"`
 	Backend pxBackend   `json:"backend"`
+	Steps   []pxStep    `json:"steps"` // history harness: the requests, in order, on one pipeline instance
 }
 
 // ---------------------------------------------------------------- observations
@@ -426,6 +450,26 @@ func pxAdaptorYAML(name, kind string, a *pxAdaptor) string {
 	if a.Decompress {
 		sb.WriteString("  decompress: gzip\n")
 	}
+	if len(a.HDel)+len(a.HSet)+len(a.HAdd) > 0 {
+		sb.WriteString("  header:\n")
+		if len(a.HDel) > 0 {
+			sb.WriteString("    del:\n")
+			for _, k := range a.HDel {
+				fmt.Fprintf(&sb, "    - %s\n", pxYAMLStr(k))
+			}
+		}
+		for _, sec := range []struct {
+			name string
+			kvs  [][2]string
+		}{{"set", a.HSet}, {"add", a.HAdd}} {
+			if len(sec.kvs) > 0 {
+				fmt.Fprintf(&sb, "    %s:\n", sec.name)
+				for _, kv := range sec.kvs {
+					fmt.Fprintf(&sb, "      %s: %s\n", pxYAMLStr(kv[0]), pxYAMLStr(kv[1]))
+				}
+			}
+		}
+	}
 	return sb.String()
 }
 
@@ -461,6 +505,23 @@ func (e *pxEnv) build(cfg pxCfg) (sut *pxSUT, err error) {
 		fmt.Fprintf(&sb, "  compression:\n    minLength: %d\n", cfg.Compression)
 	}
 	fmt.Fprintf(&sb, "  pools:\n  - serverMaxBodySize: %d\n    servers:\n    - url: %s\n      keepHost: %v\n", cfg.PoolMax, url, cfg.KeepHost)
+	if c := cfg.Cache; c != nil && len(c.Codes) > 0 && len(c.Methods) > 0 && c.MaxEntryBytes > 0 {
+		fmt.Fprintf(&sb, "    memoryCache:\n      expiration: 10m\n      maxEntryBytes: %d\n      codes: [", c.MaxEntryBytes)
+		for i, code := range c.Codes {
+			if i > 0 {
+				sb.WriteString(", ")
+			}
+			fmt.Fprintf(&sb, "%d", code)
+		}
+		sb.WriteString("]\n      methods: [")
+		for i, m := range c.Methods {
+			if i > 0 {
+				sb.WriteString(", ")
+			}
+			sb.WriteString(pxYAMLStr(m))
+		}
+		sb.WriteString("]\n")
+	}
 	if cfg.RespAd != nil {
 		sb.WriteString(pxAdaptorYAML("respad", "ResponseAdaptor", cfg.RespAd))
 	}
@@ -674,31 +735,27 @@ func (e *pxEnv) roundTrip(sc *pxScenario) *pxSeenResp {
 	return pxParseResponse(sc.Method, raw, rerr)
 }
 
-// pxRun executes one scenario on a freshly built pipeline + mux.
-func pxRun(sc *pxScenario) *pxObs {
-	e := pxGetEnv()
-	obs := &pxObs{}
+// pxOracleFor computes the standard-library oracle data of one request.
+func (e *pxEnv) oracleFor(sc *pxScenario) pxOracle {
 	url, hp := e.serverURL(sc.Cfg)
-	obs.Oracle = pxOracle{Req: pxBlobOf(pxPlain(sc.Body)), Back: pxBlobOf(pxPlain(sc.Backend.Body)), ServerURL: url, ServerHP: hp}
-	obs.Oracle.Empty = pxBlobOf(nil)
-	{
-		target := sc.Path
-		if target == "" {
-			target = "/"
-		}
-		if sc.Query != "" {
-			target += "?" + sc.Query
-		}
-		if u, err := neturl.ParseRequestURI(target); err == nil {
-			obs.Oracle.Target = true
-			obs.Oracle.EscPath, obs.Oracle.DecPath, obs.Oracle.RawQuery = u.EscapedPath(), u.Path, u.RawQuery
-		}
+	o := pxOracle{Req: pxBlobOf(pxPlain(sc.Body)), Back: pxBlobOf(pxPlain(sc.Backend.Body)), ServerURL: url, ServerHP: hp}
+	o.Empty = pxBlobOf(nil)
+	target := sc.Path
+	if target == "" {
+		target = "/"
+	}
+	if sc.Query != "" {
+		target += "?" + sc.Query
+	}
+	if u, err := neturl.ParseRequestURI(target); err == nil {
+		o.Target = true
+		o.EscPath, o.DecPath, o.RawQuery = u.EscapedPath(), u.Path, u.RawQuery
 	}
 	if sc.Cfg.ReqAd != nil {
-		obs.Oracle.ReqAd = pxBlobOf([]byte(sc.Cfg.ReqAd.Body))
+		o.ReqAd = pxBlobOf([]byte(sc.Cfg.ReqAd.Body))
 	}
 	if sc.Cfg.RespAd != nil {
-		obs.Oracle.RespAd = pxBlobOf([]byte(sc.Cfg.RespAd.Body))
+		o.RespAd = pxBlobOf([]byte(sc.Cfg.RespAd.Body))
 	}
 	seenName := map[string]bool{}
 	addCanon := func(n string) {
@@ -707,7 +764,7 @@ func pxRun(sc *pxScenario) *pxObs {
 			return
 		}
 		seenName[n] = true
-		obs.Oracle.Canon = append(obs.Oracle.Canon, [2]string{n, http.CanonicalHeaderKey(n)})
+		o.Canon = append(o.Canon, [2]string{n, http.CanonicalHeaderKey(n)})
 	}
 	for _, kv := range sc.Hdrs {
 		addCanon(kv[0])
@@ -720,38 +777,78 @@ func pxRun(sc *pxScenario) *pxObs {
 	for _, kv := range sc.Backend.Hdrs {
 		addCanon(kv[0])
 	}
-
-	sut, err := e.build(sc.Cfg)
-	if err != nil {
-		obs.Err = err.Error()
-		return obs
+	for _, a := range []*pxAdaptor{sc.Cfg.ReqAd, sc.Cfg.RespAd} {
+		if a == nil {
+			continue
+		}
+		for _, k := range a.HDel {
+			addCanon(k)
+		}
+		for _, kv := range a.HSet {
+			addCanon(kv[0])
+		}
+		for _, kv := range a.HAdd {
+			addCanon(kv[0])
+		}
 	}
+	return o
+}
+
+// runOn sends one request through an already built system under test.
+func (e *pxEnv) runOn(sut *pxSUT, sc *pxScenario) *pxObs {
+	obs := &pxObs{Oracle: e.oracleFor(sc)}
 	e.mu.Lock()
 	e.script, e.hits, e.seen, e.handler, e.panicked = sc.Backend, 0, nil, sut.m, ""
 	e.mu.Unlock()
 
 	obs.C = e.roundTrip(sc)
-	time.Sleep(0)
 	e.mu.Lock()
 	if e.panicked != "" {
 		obs.C.Err = "server-panic: " + e.panicked
 	}
-	e.mu.Unlock()
-
-	// let a backend handler that is still draining finish before reading the record
-	for i := 0; i < 3; i++ {
-		e.mu.Lock()
-		obs.Hits, obs.B = e.hits, e.seen
-		e.mu.Unlock()
-		if obs.Hits > 0 || obs.C.Status == 413 || obs.C.Status == 400 {
-			break
-		}
-		time.Sleep(2 * time.Millisecond)
-	}
-	e.mu.Lock()
+	// the backend handler records the request before it writes its reply, and the client
+	// only gets an answer after that reply: the record is complete here.
+	obs.Hits, obs.B = e.hits, e.seen
 	e.handler = nil
 	e.mu.Unlock()
+	return obs
+}
+
+// pxRun executes one scenario on a freshly built pipeline + mux.
+func pxRun(sc *pxScenario) *pxObs {
+	e := pxGetEnv()
+	sut, err := e.build(sc.Cfg)
+	if err != nil {
+		return &pxObs{Oracle: e.oracleFor(sc), Err: err.Error()}
+	}
+	obs := e.runOn(sut, sc)
 	sut.close()
 	e.back.CloseClientConnections()
 	return obs
+}
+
+type pxHistObs struct {
+	Steps []*pxObs `json:"steps"`
+	Err   string   `json:"error,omitempty"`
+}
+
+// pxRunHistory sends the scenario's steps, in order, through ONE pipeline + mux instance
+// (so that the pool's memory cache carries over from step to step).
+func pxRunHistory(sc *pxScenario) *pxHistObs {
+	e := pxGetEnv()
+	out := &pxHistObs{}
+	sut, err := e.build(sc.Cfg)
+	if err != nil {
+		out.Err = err.Error()
+		return out
+	}
+	for i := range sc.Steps {
+		st := sc.Steps[i]
+		one := pxScenario{Method: st.Method, Path: st.Path, Query: st.Query, Host: st.Host, Hdrs: st.Hdrs, Body: st.Body,
+			Cfg: sc.Cfg, Backend: st.Backend}
+		out.Steps = append(out.Steps, e.runOn(sut, &one))
+	}
+	sut.close()
+	e.back.CloseClientConnections()
+	return out
 }
